@@ -154,7 +154,10 @@ def drive(chk, beh, release, tag, reuse=False):
     op = os.path.join(chk.dir, f"out-{tag}-{prof}.ndjson")
     with open(bp, "w") as f:
         for b in beh:
-            f.write(json.dumps({"id": b["id"], "v": b["v"], "cfg": b["cfg"], "calls": b["calls"]}) + "\n")
+            row = {"id": b["id"], "v": b["v"], "cfg": b["cfg"], "calls": b["calls"]}
+            if b.get("fault"):
+                row["fault"] = b["fault"]
+            f.write(json.dumps(row) + "\n")
     vlib.run_bin("emf", ["replay", "--behaviours", bp, "--out", op] + (["--reuse", "1"] if reuse else []),
                  release=release, timeout=3000)
     outs = vlib.read_ndjson(op)
@@ -485,7 +488,10 @@ RULES = {
 ASSUMPTIONS = [
     "every behaviour is formatted three times per build profile: by a fresh formatter, and by long-lived formatters "
     "(one per configuration x way x 4 concretisation variants) in TLC's order and in a seeded shuffled order; in all "
-    "three the entry is judged on its own against TLC's result for that entry (I/O failures between entries are C16)",
+    "three the entry is judged on its own against TLC's result for that entry; in the long-lived passes ~30% of the "
+    "entries are first formatted into a writer failing after 0 / 1 / half / inside the last line / all but one of the "
+    "bytes, or go through a writer whose first call is Interrupted - the failing call is only counted (C16), the "
+    "healthy formatting that follows is judged",
     "TLC results are exhaustive within the slices of EmfSlices.tla (A/A2/B/C/D exhaustive, E/E2 simulated); call "
     "sequences beyond the bounds are covered only by simulation",
     "numbers are abstract in the model (observation tokens, saturating counts on a reduced scale); number rendering is "
@@ -503,6 +509,8 @@ ASSUMPTIONS = [
 
 
 HISTORY = 40
+FAULT_RATE = 0.3
+FAULT_KINDS = ["zero", "one", "mid", "lastline", "last", "interrupted"]
 
 
 def reuse_pass(beh, seed, shuffled):
@@ -511,8 +519,15 @@ def reuse_pass(beh, seed, shuffled):
     ones mixed - in TLC's order or in a seeded shuffled order."""
     vs = [0] + [(seed * 7919 + 131 * k) % 977 for k in (1, 2, 3)]
     lst = [dict(b, v=vs[b["id"] % 4]) for b in beh]
+    rng = random.Random(seed * 1000003 + beh[0]["id"] + (7 if shuffled else 0))
     if shuffled:
-        random.Random(seed * 1000003 + beh[0]["id"]).shuffle(lst)
+        rng.shuffle(lst)
+    # writer faults at seeded positions: before such an entry is formatted into a healthy writer the same
+    # formatter instances format it into a writer that fails after N bytes (or is interrupted once); the
+    # failing call itself is C16's business (only counted), the entry that FOLLOWS is judged as always
+    for b in lst:
+        if rng.random() < FAULT_RATE:
+            b["fault"] = rng.choice(FAULT_KINDS)
     return lst
 
 
@@ -530,6 +545,14 @@ def _evaluate(chk, prop, beh, outs, debug, stats, mode="fresh"):
         stats["executions_" + prof] = stats.get("executions_" + prof, 0) + nways
         if mode != "fresh":
             stats["executions_long_lived_formatter"] = stats.get("executions_long_lived_formatter", 0) + nways
+            ft = o.get("fault") or {}
+            if ft.get("kind"):
+                stats["entries_after_writer_fault"] = stats.get("entries_after_writer_fault", 0) + 1
+                stats["failing_writer_calls"] = stats.get("failing_writer_calls", 0) + ft["calls"]
+                stats["failing_writer_calls_returning_io_error"] = \
+                    stats.get("failing_writer_calls_returning_io_error", 0) + ft["io_err"]
+                stats["failing_writer_calls_not_returning_io_error"] = \
+                    stats.get("failing_writer_calls_not_returning_io_error", 0) + ft["not_io_err"]
         mine = [f for f in fs if f["prop"] == prop]
         viol = [f for f in mine if f["sev"] == "violation"]
         for f in viol[:1]:
@@ -541,7 +564,10 @@ def _evaluate(chk, prop, beh, outs, debug, stats, mode="fresh"):
                 # the entries the same formatter instances formatted just before this one
                 hist = [x for x in beh[:pos] if x["cfg"] == b["cfg"] and x["v"] == b["v"]][-HISTORY:]
                 rep["mode"] = mode
-                rep["history"] = [{k: x[k] for k in ("id", "v", "cfg", "calls")} for x in hist]
+                rep["history"] = [{k: x[k] for k in ("id", "v", "cfg", "calls", "fault") if k in x} for x in hist]
+                if b.get("fault"):
+                    rep["behaviour"]["fault"] = b["fault"]
+                    what = f"[after a writer fault ({b['fault']}) on the same formatter] " + what
                 what = (f"[long-lived formatter ({mode}), entry judged on its own against the model after "
                         f"{len(hist)}+ earlier entries on the same instance] " + what)
             bad.add((b["id"], prof))
